@@ -101,6 +101,7 @@ class Tag(object):
         self.response = response
         self._answer = answer
         self.with_crc = False      # True: answers already end with their CRC
+        self.air_log = []          # complete frames seen on the air (CIU path)
         self.rf_log = []
 
     def default_response(self):
@@ -342,6 +343,10 @@ class PN53xCore(object):
         if not self.ciu_tx or self.tag is None or self.tag.kind != 'T1':
             return
         tx, self.ciu_tx = bytes(self.ciu_tx), bytearray()
+        self.tag.air_log.append(tx)
+        if len(tx) < 3 or refcrc.append_b(tx[:-2]) != tx:
+            self.fifo = bytearray()            # wrong CRC_B: the tag is silent
+            return
         ans = self.tag.answer(tx[:-2])         # the driver appended CRC_B
         if ans is None:
             self.fifo = bytearray()
@@ -488,6 +493,11 @@ class PN53xCore(object):
         if rxm & 0x03 == 0 and rxm & 0x80 == 0 and len(ans) > 1 \
                 and not t.with_crc:
             ans = refcrc.append_a(ans)         # RxCRCEn off: CRC is passed up
+        elif rxm & 0x03 == 0 and rxm & 0x80 and t.with_crc and len(ans) > 2:
+            # RxCRCEn on: the CIU verifies and strips CRC_A itself
+            if refcrc.append_a(ans[:-2]) != bytes(ans):
+                return b'\x02'                 # CRC error detected by the CIU
+            ans = ans[:-2]
         return b'\x00' + ans
 
 
@@ -847,6 +857,12 @@ class RCS380Chip(ChipBase):
         if tech == 'A' and self.in_proto.get(2, 1) == 0 and len(ans) > 1 \
                 and not t.with_crc:
             ans = refcrc.append_a(ans)        # check_crc off: CRC passed up
+        elif tech == 'A' and self.in_proto.get(2, 1) == 1 and t.with_crc \
+                and len(ans) > 2:
+            # check_crc on: the chip verifies and strips CRC_A itself
+            if refcrc.append_a(ans[:-2]) != bytes(ans):
+                return hx('04000000 00')      # CRC_ERROR
+            ans = ans[:-2]
         return ok + ans
 
     def _tg_comm_rf(self, p):
